@@ -746,12 +746,59 @@ class Col2D:
         self.arr = arr
 
 
+class Row2D:
+    """x[None, :]: a row vector of column numbers (outer indexing of a pit)"""
+
+    def __init__(self, arr):
+        self.arr = arr
+
+
+class PitCols:
+    """pit[:, cols] for a concrete list of columns"""
+
+    def __init__(self, pit, cols):
+        self.pit = pit
+        self.cols = cols
+
+
 class PairMask:
     """A == B[:, None]  (shape len(B) x len(A)): np.where gives the pairs (s, b) with A[b] == B[s]"""
 
     def __init__(self, a, b):
         self.a = a        # row vector (e.g. a pit column)
         self.b = b        # column vector (e.g. the slack node numbers)
+
+
+class ConcatArr(Arr):
+    """np.concatenate of 1-D arrays: positional element function over the parts (compressed parts
+    through their sel function) plus the list of parts (engine E3 inspects it)"""
+
+    def __init__(self, parts):
+        self.parts = list(parts)
+        lens = [count_term(p.mask) if isinstance(p, Comp) else (p.n.term() if isinstance(p.n, Count) else p.n)
+                for p in self.parts]
+        self.offsets = []
+        cur = 0
+        for ln in lens:
+            self.offsets.append(cur)
+            cur = arith("+", cur, ln)
+        kinds = set(getattr(p, "kind", "f") for p in self.parts)
+        Arr.__init__(self, cur, self._elem, "i" if kinds == {"i"} else "f")
+
+    def _elem(self, j):
+        out = None
+        for p, off in reversed(list(zip(self.parts, self.offsets))):
+            k = arith("-", j, off)
+            v = p.f(sel_fn(p.mask)(I(k))) if isinstance(p, Comp) else p.f(k)
+            out = v if out is None else ite(compare(">=", j, off), v, out)
+        # parts are laid out in order: the first part whose offset is <= j and next offset > j
+        res = None
+        for idx in range(len(self.parts) - 1, -1, -1):
+            p, off = self.parts[idx], self.offsets[idx]
+            k = arith("-", j, off)
+            v = p.f(sel_fn(p.mask)(I(k))) if isinstance(p, Comp) else p.f(k)
+            res = v if res is None else ite(compare("<", j, self.offsets[idx + 1]), v, res)
+        return res
 
 
 class Bag:
@@ -811,6 +858,8 @@ def str_code(s):
 def member(coll, x):
     if isinstance(coll, (list, tuple, set, frozenset)):
         return bor(*[compare("==", x, e) for e in coll])
+    if isinstance(coll, ConcatArr):
+        return bor(*[member(p, x) for p in coll.parts])
     if getattr(coll, "member_fn", None) is not None:
         return coll.member_fn(x)      # membership predicate supplied by the producing contract
     if isinstance(coll, SetVal):
